@@ -125,20 +125,35 @@ def gen_run(rng, cfg):
         n_ops = min(n_ops, 8)
     fault_rate = rng.choice([0.25, 0.4, 0.6]) if faulty else 0.0
     ops = []
+    bases = []  # the undamaged text each op started from
     dirty = False  # previous op failed / was aborted: follow with a probe more often
     for i in range(n_ops):
         kind = _pick_weighted(rng, list(mix.items()))
+        if ops and kind in ("parse", "gen") and rng.random() < 0.04 and any(o["op"] in ("parse", "parse_file") for o in ops):
+            # the caller post-processes an AST it got earlier (appends to its string lists)
+            ops.append({"op": "mutate", "target": rng.randrange(16), "items": []})
+            bases.append([])
         op = {"op": kind}
         items = list(rng.choice(pool))
         same_again = False
-        if ops and rng.random() < 0.2:
+        x = rng.random()
+        if ops and x < 0.2:
             prev = rng.choice(ops)
             items = list(prev["items"])  # the same text as an earlier call (damage included)
             same_again = True
+        elif ops and x < 0.35:
+            # a near-duplicate of an earlier text: one or two lexemes replaced (an edit)
+            j = rng.randrange(len(ops))
+            src = bases[j] if rng.random() < 0.6 else ops[j]["items"]
+            if src:
+                items, desc = W.edit_items(rng, src, rng.choice([1, 1, 2]))
+                op["edit_of"] = j
+                same_again = True
         if not same_again and ((dirty and rng.random() < 0.6) or rng.random() < 0.1):
             items = list(rng.choice(CLASH_PROBES))
         fault = None
         dirty_next = False
+        base_items = list(items)
         if kind == "parse":
             op["obj"] = main_obj if rng.random() < 0.8 else rng.choice(["P0", "P1"])
             op["filename"] = rng.choice(FILENAMES)
@@ -202,6 +217,8 @@ def gen_run(rng, cfg):
             if rng.random() < 0.3:
                 del op["filename"]
             op["errmode"] = rng.choice(["record", "record", "raise"])
+            if rng.random() < 0.15:
+                op["swap_callbacks"] = True  # new callback functions assigned to the public attributes
             if enabled and rng.random() < fault_rate:
                 fk = rng.choice(enabled)
                 if fk == "abandon":
@@ -246,6 +263,7 @@ def gen_run(rng, cfg):
         if fault is not None:
             op["fault"] = fault
         ops.append(op)
+        bases.append(base_items)
         dirty = dirty_next
     gc_plan = rng.choice([{"mode": "op-end"}, {"mode": "op-end"}, {"mode": "off"}, {"mode": "steps", "every": rng.choice([300, 2000, 10000])}])
     spec = {
@@ -282,6 +300,7 @@ def op_key(op):
     if op["op"] == "lex":
         k["take"] = op.get("take")
         k["errmode"] = op.get("errmode", "record")
+        k["brace_raise"] = op.get("brace_raise")
         k["sim"] = bool(op.get("sim"))
     if op["op"] == "visit":
         k["visitor"] = op.get("visitor")
@@ -294,7 +313,7 @@ def op_key(op):
 
 def baseline_spec(op):
     """The same operation, alone, on brand-new objects, no fault."""
-    o = {k: v for k, v in op.items() if k not in ("fault", "mut", "same_ast")}
+    o = {k: v for k, v in op.items() if k not in ("fault", "mut", "same_ast", "swap_callbacks", "edit_of")}
     return {
         "property": "C12",
         "mode": "token",
